@@ -31,6 +31,7 @@ CONSTANTS
  Aead = TRUE
  CheckIdent = TRUE
  RelayOnce = TRUE
+ CandsGuard = TRUE
  SuspendJoin = FALSE
  JoinCacheFirst = TRUE
  AutoTimers = TRUE
@@ -39,4 +40,5 @@ INVARIANT PathAgreement
 INVARIANT NoForeignKey
 INVARIANT KeyAgreement
 PROPERTY AnswerMustMatch
+PROPERTY HopByRightAnswer
 PROPERTY EntriesStable
